@@ -210,7 +210,35 @@ def _node_at(doc, toks):
 RES_ERRS = {"JSONPointerIndexError", "JSONPointerKeyError", "JSONPointerTypeError", "JSONPointerResolutionError"}
 
 
+def _string_documents(ctx):
+    """A document given as JSON text whose value is a *string* (one that holds JSON text itself, or not): the string is the
+    document - a primitive - through every method of a pointer; it is decoded once."""
+    import json
+    from jsonpath import JSONPointer
+
+    for s in ("[10, 20]", "5", "{\"a\": 1}", "abc", "null", "", "\"q\""):
+        text = json.dumps(s)
+        for ptr in ("", "/0", "/a", "/-"):
+            ctx.count("string-document")
+            want = {"resolve": {"ok": s} if ptr == "" else {"err": "JSONPointerTypeError"},
+                    "exists": {"ok": ptr == ""},
+                    "resolve_parent": {"ok": [None, s]} if ptr == "" else {"err": "JSONPointerTypeError"},
+                    "resolve(default)": {"ok": s} if ptr == "" else {"ok": "DEFAULT"}}
+            got = {"resolve": core.outcome(lambda: JSONPointer(ptr).resolve(text)),
+                   "exists": core.outcome(lambda: JSONPointer(ptr).exists(text)),
+                   "resolve_parent": core.outcome(lambda: list(JSONPointer(ptr).resolve_parent(text))),
+                   "resolve(default)": core.outcome(lambda: JSONPointer(ptr).resolve(text, default="DEFAULT"))}
+            for k, w in want.items():
+                g = {"ok": got[k]["ok"]} if "ok" in got[k] else {"err": got[k]["err"]}
+                if g != w:
+                    ctx.violation("a JSON text document whose value is a string is that string - a primitive no token applies to - through every pointer method",
+                                  {"document text": text, "pointer": ptr, "method": k}, g, w)
+
+
 def evaluate(ctx, cases):
+    if not getattr(ctx, "_strdocs_done", False):
+        ctx._strdocs_done = True
+        _string_documents(ctx)
     reqs = []
     for c in cases:
         try:
